@@ -45,6 +45,17 @@ THEOREMS = [
     "TornadoModel.C40.exit_only_after_closing",
     "TornadoModel.C40.quiescent_nothing_ready",
     "TornadoModel.C40.ready_fd_forces_progress",
+    "TornadoModel.C40.rank_step",
+    "TornadoModel.C40.rank_env",
+    "TornadoModel.C40.rank_mut",
+    "TornadoModel.C40.watched_can_move",
+    "TornadoModel.C40.no_lost_event",
+    "TornadoModel.C40.rank_run",
+    "TornadoModel.C40.every_schedule_dispatches",
+    "TornadoModel.C40.no_lost_event_fair",
+    "TornadoModel.C40.no_lost_event_partial",
+    "TornadoModel.C40.no_lost_event_refuted",
+    "TornadoModel.C40.Refute.s0_needs_17",
 ]
 TRUSTED = [
     "atomicity: steps of the model are atomic because the code holds _select_cond there or uses one thread-safe primitive (socket send/recv, select returning, call_soon_threadsafe) — GIL / threading.Condition / asyncio contracts",
@@ -64,14 +75,22 @@ CLAUSES = {
     "every readiness of an fd that stays registered is eventually dispatched on the event-loop thread":
         "safety form proved: quiescent_nothing_ready / ready_fd_forces_progress (a registered ready fd always leaves a step enabled: no deadlock with work to do), wake_invariant, "
         "waker_always_captured, stale_select_returns, selected_reports_ready; "
-        "bounded-rounds liveness under fairness (no_lost_event_goal) tie only: settle-phase oracle Spec.lost on every execution",
+        "liveness proved with an explicit ranking function rank(fd, state) on (token position, wake-up owed): rank_step (every progress step of "
+        "either thread strictly decreases it until fd's callback runs), rank_env (the environment does not move it), rank_mut (a user call "
+        "add/remove_reader/writer that leaves fd registered raises it by at most 2), watched_can_move (a progress step is always enabled while a "
+        "registered fd is readable: the selector/loop pair never deadlocks), no_lost_event (an explicit schedule of <= rank progress steps "
+        "dispatches fd), rank_run / every_schedule_dispatches (EVERY execution of progress, environment and user-call steps with more than "
+        "rank + 2*calls progress steps has dispatched fd), no_lost_event_fair (infinite executions under fairness with finitely many user calls: "
+        "the callback runs, no later than the rank+2M+1-th progress step); the first-stated constant bound of 16 steps is false "
+        "(no_lost_event_refuted, Refute.s0_needs_17: with 16 readable fds the last needs 17 steps, callbacks of a round run in order) and holds "
+        "where rank <= 16 (no_lost_event_partial); tie: settle-phase oracle Spec.lost on every execution",
     "callbacks never run on the selector thread": "callbacks_on_loop_thread (structural) + thread identity observed in every execution",
     "close always returns with the selector thread stopped": "close_can_wake, close_progress, close_rank_decreases, join_returns",
     "real executions are executions of the model": "tie only: every recorded execution is accepted by Model.step and ends in the model's final state",
 }
 PARALLEL = False
 CASE_TIMEOUT = 120
-LEVEL_NOTE = "OS scheduler and real select(2) errors are outside the model; liveness (no_lost_event) is tie-only"
+LEVEL_NOTE = "OS scheduler and real select(2) errors are outside the model; liveness is proved at the level of the model (ranking function; bound rank + 2 per user call); unboundedly many user calls / callbacks that never return are outside it"
 
 WAKER = 0
 FDS = [3, 4, 5]
